@@ -438,3 +438,62 @@ def kd_structure(P, rep, rule="KD"):
                           witness="point set in which the nearest point lies across the split plane")
     else:
         rep.ok(rule, "near child unconditional, far child pruned on the split-axis difference, same mid in build and search", F.loc, F.qn)
+
+
+def conversion_roundtrip(P, rep, rule="EXPR.conversion"):
+    rep.rule(rule, "spherical_to_cartesian(cartesian_to_spherical(p)) == p as an algebraic identity for every p off the polar axis (r > 0): "
+                   "radius = |p|, longitude = atan2(y, x), latitude = pi/2 - acos(z/r), and back x = r cos(lat) cos(lon), y = r cos(lat) sin(lon), "
+                   "z = r sin(lat)")
+    C2S = P.func("WorldBuilder::Utilities::cartesian_to_spherical_coordinates")
+    S2C = P.func("WorldBuilder::Utilities::spherical_to_cartesian_coordinates")
+    x, y, z = sp.symbols("x y z", positive=True)
+    pk = C2S.params[0]
+
+    def hook1(n):
+        s = astq.subscript(n)
+        if s and astq.is_ref_to(s[0], pk) and sc(s[1]).get("k") == "IntegerLiteral":
+            return (x, y, z)[sc(s[1])["v"]]
+        if n.get("k") == "CXXMemberCallExpr" and n["c"][0].get("n") == "norm" and astq.is_ref_to(n["c"][0]["c"][0], pk):
+            return sp.sqrt(x * x + y * y + z * z)
+        if n.get("k") == "DeclRefExpr" and P.d(n["r"]).get("qn") == "WorldBuilder::Consts::PI":
+            return sp.pi
+        return None
+    B = Block(P, C2S, choose=lambda c: True, hook=hook1)
+    B.run(astq.stmts_of(C2S.body))
+    ret = [r for r in C2S.walk() if r.get("k") == "ReturnStmt" and r.get("c")]
+    rk = sc(ret[0]["c"][0]).get("r") if ret else None
+    sph = [B.state.get(("elem", ("v", rk), i)) for i in range(3)]
+    if any(v is None for v in sph):
+        rep.unknown(rule, "cartesian_to_spherical_coordinates: components not recognised")
+        return
+    want_s = [sp.sqrt(x * x + y * y + z * z), sp.atan2(y, x), sp.pi / 2 - sp.acos(z / sp.sqrt(x * x + y * y + z * z))]
+    bad = [i for i in range(3) if not eq(sph[i], want_s[i])]
+    if bad:
+        rep.violation(rule, "cartesian_to_spherical_coordinates: component(s) %s are %s" % (bad, [str(sph[i]) for i in bad]), C2S.loc, C2S.qn, "",
+                      "expected (|p|, atan2(y,x), pi/2 - acos(z/|p|))", key=rule + "|c2s", witness="any point off the axes")
+    else:
+        rep.ok(rule, "cartesian_to_spherical = (|p|, atan2(y,x), pi/2 - acos(z/|p|))", C2S.loc, C2S.qn)
+    sk = S2C.params[0]
+
+    def hook2(n):
+        s = astq.subscript(n)
+        if s and astq.is_ref_to(s[0], sk) and sc(s[1]).get("k") == "IntegerLiteral":
+            return sph[sc(s[1])["v"]]
+        if n.get("k") == "DeclRefExpr" and P.d(n["r"]).get("qn") == "WorldBuilder::Consts::PI":
+            return sp.pi
+        return None
+    sym = norm.Sym(P, S2C, inline_locals=True, hook=hook2)
+    ret = [r for r in S2C.walk() if r.get("k") == "ReturnStmt" and r.get("c")]
+    ctor = sc(ret[0]["c"][0]) if ret else None
+    while ctor is not None and ctor.get("k") in ("CXXConstructExpr", "CXXTemporaryObjectExpr") and len(ctor.get("c", [])) == 1:
+        ctor = sc(ctor["c"][0])
+    if ctor is None or ctor.get("k") not in ("CXXConstructExpr", "CXXTemporaryObjectExpr") or len(ctor["c"]) < 3:
+        rep.unknown(rule, "spherical_to_cartesian_coordinates: returned Point not recognised")
+        return
+    back = [sp.simplify(sym(ctor["c"][i])) for i in range(3)]
+    bad = [i for i in range(3) if sp.simplify(back[i] - (x, y, z)[i]) != 0]
+    if bad:
+        rep.violation(rule, "round trip: component(s) %s come back as %s" % (bad, [str(back[i])[:80] for i in bad]), S2C.loc, S2C.qn, "",
+                      "spherical_to_cartesian(cartesian_to_spherical(p)) != p", key=rule + "|roundtrip", witness="any point off the axes")
+    else:
+        rep.ok(rule, "spherical_to_cartesian(cartesian_to_spherical(x,y,z)) == (x,y,z) identically (first octant representative, r > 0)", S2C.loc, S2C.qn)
